@@ -1,0 +1,56 @@
+//! Verification-only scheduling points (feature `verif-hooks`, off by default).
+//!
+//! A thread that has called [`enter`] is a *participant*. At every hook a
+//! participant hands control to the installed [`Scheduler`], which decides when
+//! it may continue. On every other thread (all production and test threads)
+//! the hooks return immediately.
+
+use std::cell::Cell;
+use std::sync::{Arc, RwLock};
+
+pub trait Scheduler: Send + Sync {
+    /// Called by participant `participant` at scheduling point `site`.
+    /// `probe` is a side-effect-free "could the following blocking
+    /// acquisition succeed right now" test; it must only be evaluated on the
+    /// calling thread. Returns when the participant may continue.
+    fn at(&self, participant: usize, site: &'static str, probe: &dyn Fn() -> bool);
+}
+
+static SCHED: RwLock<Option<Arc<dyn Scheduler>>> = RwLock::new(None);
+
+thread_local! {
+    static PARTICIPANT: Cell<Option<usize>> = const { Cell::new(None) };
+}
+
+/// Install (or remove) the process-wide scheduler.
+pub fn install(sched: Option<Arc<dyn Scheduler>>) {
+    *SCHED.write().unwrap_or_else(|e| e.into_inner()) = sched;
+}
+
+/// Register the calling thread as participant `id`.
+pub fn enter(id: usize) {
+    PARTICIPANT.with(|p| p.set(Some(id)));
+}
+
+/// Unregister the calling thread.
+pub fn leave() {
+    PARTICIPANT.with(|p| p.set(None));
+}
+
+/// Scheduling point in front of a blocking acquisition.
+#[inline]
+pub fn before_lock(site: &'static str, probe: &dyn Fn() -> bool) {
+    let Some(id) = PARTICIPANT.with(Cell::get) else {
+        return;
+    };
+    let sched = SCHED.read().unwrap_or_else(|e| e.into_inner()).clone();
+    if let Some(s) = sched {
+        s.at(id, site, probe);
+    }
+}
+
+/// Plain scheduling point (always enabled).
+#[inline]
+pub fn point(site: &'static str) {
+    before_lock(site, &|| true);
+}
